@@ -12,7 +12,7 @@ EVIDENCE = dict(
     rule="cases = every revision history TLC reaches for N=2 objects, <= 2 revisions (per revision: xref kind, per object "
          "keep/free/plain/instm/stream/streamref, length-holder placement) x 4 physical option sets; each rendered as a PDF and "
          "probed with every lookup sequence of length <= 2 (3 in thorough) over objects, length holder and cache clear on a fresh "
-         "reader; thorough adds -simulate histories for N=3, 3 revisions. Every sequence also exists with two more steps: the deep resolution (Reader.ResolveDeep) of an index array that references every object of the history, and the lookup of that array, which must keep returning the references as the file spells them. Non-trivial = some object defined in >= 2 revisions or "
+         "reader; thorough adds -simulate histories for N=3, 3 revisions. Every sequence also exists with two more steps: the deep resolution (Reader.ResolveDeep) of an index array that references every object of the history, and the lookup of that array, which must keep returning the references as the file spells them; and the lookup of every object stream ITSELF by its number before and after its members (a stream of type ObjStm with /N members and its data). Non-trivial = some object defined in >= 2 revisions or "
          "freed; distinct by (history, options).",
     assumptions=["pdfw (independent writer, self-audited) renders the history faithfully", "zlib is trusted"],
 )
